@@ -94,18 +94,86 @@ class PlainWs:
 def record_workspace(rng):
     """records used across modules: the type is declared in `ma`, `mb` imports it, constructs and returns values,
     `mc` imports only `mb` (or both) and accesses fields of values it gets from `mb` — a field can be used
-    without importing the module that declares it"""
+    without importing the module that declares it.  The occurrences of the first field are known by construction
+    (`groups`): the declaration first, then every label / access that denotes it."""
     f1, f2 = rng.sample(["p", "q", "size", "name", "item"], 2)
     two = rng.random() < 0.5
+    local_twin = rng.random() < 0.4          # the importing module declares its own Rec with a field of the same name
     ty = f"pub type Rec {{\n  Rec({f1}: Int, {f2}: Int)\n" + (f"  Other({f1}: Int)\n" if two else "") + "}\n"
     ma = ty + f"pub fn fresh() {{\n  Rec({f1}: 1, {f2}: 2)\n}}\n"
-    mb = (f"import ma\npub fn make() {{\n  ma.Rec({f2}: 2, {f1}: 1)\n}}\n"
+    twin = (f"pub type Mine {{\n  Rec({f1}: Int)\n}}\npub fn mine() {{\n  Rec({f1}: 5)\n}}\n" if local_twin else "")
+    mb = (f"import ma\n" + twin + f"pub fn make() {{\n  ma.Rec({f2}: 2, {f1}: 1)\n}}\n"
           f"pub fn get(r: ma.Rec) {{\n  r.{f1}\n}}\n"
           f"pub fn pat(r: ma.Rec) {{\n  case r {{\n    ma.Rec({f1}: a, ..) -> a\n" + ("    ma.Other(..) -> 0\n" if two else "") + "  }\n}\n")
     imp = "import mb\n" + ("import ma\n" if rng.random() < 0.4 else "")
     mc = (imp + f"pub fn use_it() {{\n  mb.make().{f1} + mb.get(mb.make())\n}}\n"
           f"pub fn again() {{\n  let r = mb.make()\n  r.{f1}\n}}\n")
-    return PlainWs([("/w/p/src/ma.gleam", ma), ("/w/p/src/mb.gleam", mb), ("/w/p/src/mc.gleam", mc), ("/w/p/gleam.toml", 'name = "p"\n')])
+    ws = PlainWs([("/w/p/src/ma.gleam", ma), ("/w/p/src/mb.gleam", mb), ("/w/p/src/mc.gleam", mc), ("/w/p/gleam.toml", 'name = "p"\n')])
+    def at(fi, text, needle, k=0):
+        return (fi, text.index(needle) + k)
+    if not two:      # with a second variant carrying the label, `r.f` denotes the common field of both
+        group = [at(0, ma, f"Rec({f1}: Int", 4), at(0, ma, f"Rec({f1}: 1", 4),
+                 at(1, mb, f"{f1}: 1)", 0), at(1, mb, f"r.{f1}", 2), at(1, mb, f"ma.Rec({f1}: a", 7),
+                 at(2, mc, f"mb.make().{f1}", 10), at(2, mc, f"  r.{f1}", 4)]
+        ws.groups = [(f1, group)]
+        if local_twin:
+            ws.groups.append((f1, [at(1, mb, f"Rec({f1}: Int)", 4), at(1, mb, f"Rec({f1}: 5)", 4)]))
+    return ws
+
+
+def run_expected_groups(res, prop, wss):
+    """occurrences known by construction to denote one definition (first = declaration): each must lead to it,
+    its references must contain them all and nothing of another group, a rename must rewrite exactly them"""
+    batches = []
+    for ws in wss:
+        q = []
+        for name, group in getattr(ws, "groups", []):
+            for (f, o) in group:
+                q.append(f"goto\t{f}\t{o}")
+            q.append(f"refs\t{group[0][0]}\t{group[0][1]}")
+            q.append(f"rename\t{group[0][0]}\t{group[0][1]}\t{hexs(name + '_zq')}")
+        batches.append((ws, q))
+    batches = [b for b in batches if b[1]]
+    if not batches:
+        return
+    ans = run_workspaces(batches)
+    for (ws, q), a in zip(batches, ans):
+        k = 0
+        for gi, (name, group) in enumerate(ws.groups):
+            decl = group[0]
+            others = [m for gj, (_, g2) in enumerate(ws.groups) if gj != gi for m in g2]
+            replay = {"files": ws.files, "group": group, "name": name}
+            for (f, o) in group:
+                t = parse_target(a[k]); k += 1
+                if t is None or (t[0], t[1]) != decl:
+                    res.add_violation(f"{prop}/expected-occurrence-unresolved",
+                                      f"occurrence of field `{name}` at file {f} offset {o} does not lead to its declaration (answer {a[k - 1][:60]})", replay)
+            R = parse_refs(a[k]); k += 1
+            Rs = {(f, s) for (f, s, e) in R} if R else set()
+            if prop == "C06":
+                miss = [m for m in group if m not in Rs]
+                extra = [m for m in others if m in Rs]
+                if miss:
+                    res.add_violation("C06/expected-occurrence-missing-from-references", f"references of field `{name}` lack the occurrence(s) {miss[:3]}", replay)
+                if extra:
+                    res.add_violation("C06/references-contain-other-symbol", f"references of field `{name}` contain occurrence(s) of another field of that name {extra[:3]}", replay)
+            ren = a[k]; k += 1
+            if prop == "C07":
+                if not ren.startswith("ok "):
+                    res.add_violation("C07/expected-rename-refused", f"rename of field `{name}` refused: {ren[:80]}", replay)
+                else:
+                    edits = set()
+                    for e in ren[3:].split(";"):
+                        if e and e != "-":
+                            f, r, _ = e.split(":")
+                            edits.add((int(f), int(r.split("-")[0])))
+                    miss = [m for m in group if m not in edits]
+                    extra = [m for m in others if m in edits]
+                    if miss:
+                        res.add_violation("C07/expected-occurrence-not-renamed", f"rename of field `{name}` leaves the occurrence(s) {miss[:3]} behind", replay)
+                    if extra:
+                        res.add_violation("C07/rename-rewrites-other-symbol", f"rename of field `{name}` rewrites occurrence(s) of another field {extra[:3]}", replay)
+    res.cov["evaluations"] += sum(len(q) for _, q in batches)
 
 
 # ---------------- C06 ----------------
@@ -114,6 +182,7 @@ def run_c06(res, tier, seed):
     wss = [gen_scope.generate(seed * 7919 + i) for i in range(n_ws)]
     rrng = random.Random(seed + 6)
     wss += [record_workspace(rrng) for _ in range(12 if tier == "quick" else 100)]
+    run_expected_groups(res, "C06", wss)
     all_toks = stage1(wss)
     # group tokens by definition
     plans = []
